@@ -47,66 +47,66 @@ Rest == UNCHANGED <<stopped, bestSet, nbatch, nchoice, nlearn, calDone, todo, go
 
 Expected(best) == IF best < envBest THEN ((envBest - best) * 4096) \div envBest ELSE 0
 
-Step ==
-  /\ More
-  /\ l' = l + 1
-  /\ Rest
-  /\ CASE Ev.e = "sess" ->
+Apply(ev) ==
+  /\ CASE ev.e = "sess" ->
             /\ pc' = [pc EXCEPT !["cal"] = "Loop"] /\ sess' = sess + 1
             /\ UNCHANGED <<actQ, outQ, alive, chosen, executed, learned, envBest, pend, nlearnAll, rewardOK>>
-       [] Ev.e = "tstart" ->
+       [] ev.e = "tstart" ->
             /\ alive' = TRUE
             /\ UNCHANGED <<actQ, outQ, pc, sess, chosen, executed, learned, envBest, pend, nlearnAll, rewardOK>>
-       [] Ev.e \in {"flag", "join"} ->
+       [] ev.e \in {"flag", "join"} ->
             UNCHANGED <<actQ, outQ, alive, pc, sess, chosen, executed, learned, envBest, pend, nlearnAll, rewardOK>>
-       [] Ev.e = "exit" ->
+       [] ev.e = "exit" ->
             /\ alive' = FALSE
             /\ UNCHANGED <<actQ, outQ, pc, sess, chosen, executed, learned, envBest, pend, nlearnAll, rewardOK>>
-       [] Ev.e = "boot" ->
-            /\ envBest' = Ev.best
+       [] ev.e = "boot" ->
+            /\ envBest' = ev.best
             /\ UNCHANGED <<actQ, outQ, alive, pc, sess, chosen, executed, learned, pend, nlearnAll, rewardOK>>
-       [] Ev.e = "policy" ->
-            /\ chosen' = Append(chosen, [cid |-> Ev.cid, act |-> Ev.a])
+       [] ev.e = "policy" ->
+            /\ chosen' = Append(chosen, [cid |-> ev.cid, act |-> ev.a])
             /\ UNCHANGED <<actQ, outQ, alive, pc, sess, executed, learned, envBest, pend, nlearnAll, rewardOK>>
-       [] Ev.e = "put" ->
-            /\ Len(chosen) > 0 /\ chosen[Len(chosen)] = [cid |-> Ev.cid, act |-> Ev.a]
-            /\ actQ' = Append(actQ, <<Ev.cid, Ev.a>>)
+       [] ev.e = "put" ->
+            /\ Len(chosen) > 0 /\ chosen[Len(chosen)] = [cid |-> ev.cid, act |-> ev.a]
+            /\ actQ' = Append(actQ, <<ev.cid, ev.a>>)
             /\ UNCHANGED <<outQ, alive, pc, sess, chosen, executed, learned, envBest, pend, nlearnAll, rewardOK>>
-       [] Ev.e = "get" ->
-            /\ actQ # <<>> /\ Head(actQ) = <<Ev.cid, Ev.a>>
-            /\ Ev.sampler = Ev.a                              \* the scheduler returns the sampler whose index the agent chose
+       [] ev.e = "get" ->
+            /\ actQ # <<>> /\ Head(actQ) = <<ev.cid, ev.a>>
+            /\ ev.sampler = ev.a                              \* the scheduler returns the sampler whose index the agent chose
             /\ actQ' = Tail(actQ)
-            /\ executed' = Append(executed, [batch |-> Ev.batch, cid |-> Ev.cid, act |-> Ev.a])
+            /\ executed' = Append(executed, [batch |-> ev.batch, cid |-> ev.cid, act |-> ev.a])
             /\ UNCHANGED <<outQ, alive, pc, sess, chosen, learned, envBest, pend, nlearnAll, rewardOK>>
-       [] Ev.e = "out" ->
-            /\ outQ' = Append(outQ, <<"out", Ev.batch, Ev.best>>)
+       [] ev.e = "out" ->
+            /\ outQ' = Append(outQ, <<"out", ev.batch, ev.best>>)
             /\ UNCHANGED <<actQ, alive, pc, sess, chosen, executed, learned, envBest, pend, nlearnAll, rewardOK>>
-       [] Ev.e = "end" ->
+       [] ev.e = "end" ->
             /\ outQ' = Append(outQ, <<"end">>)
             /\ UNCHANGED <<actQ, alive, pc, sess, chosen, executed, learned, envBest, pend, nlearnAll, rewardOK>>
-       [] Ev.e = "rcv" ->
-            /\ outQ # <<>> /\ Head(outQ)[1] = Ev.kind
-            /\ (Ev.kind = "out" => Head(outQ)[2] = Ev.batch)
+       [] ev.e = "rcv" ->
+            /\ outQ # <<>> /\ Head(outQ)[1] = ev.kind
+            /\ (ev.kind = "out" => Head(outQ)[2] = ev.batch)
             /\ pend' = Head(outQ) /\ outQ' = Tail(outQ)
             /\ UNCHANGED <<actQ, alive, pc, sess, chosen, executed, learned, envBest, nlearnAll, rewardOK>>
-       [] Ev.e = "learn" ->
+       [] ev.e = "learn" ->
             /\ pend # <<>>
-            /\ learned' = Append(learned, [cid |-> Ev.cid, act |-> Ev.a, batch |-> IF pend[1] = "out" THEN pend[2] ELSE -1])
-            /\ rewardOK' = (rewardOK /\ (pend[1] = "out" => Ev.r = Expected(pend[3])))
+            /\ learned' = Append(learned, [cid |-> ev.cid, act |-> ev.a, batch |-> IF pend[1] = "out" THEN pend[2] ELSE -1])
+            /\ rewardOK' = (rewardOK /\ (pend[1] = "out" => ev.r = Expected(pend[3])))
             /\ envBest' = IF pend[1] = "out" /\ pend[3] < envBest THEN pend[3] ELSE envBest
             /\ nlearnAll' = nlearnAll + 1
             /\ pend' = <<>>
             /\ UNCHANGED <<actQ, outQ, alive, pc, sess, chosen, executed>>
-       [] Ev.e = "drain" ->
-            /\ Ev.n = Len(actQ) /\ actQ' = <<>>
+       [] ev.e = "drain" ->
+            /\ ev.n = Len(actQ) /\ actQ' = <<>>
             /\ UNCHANGED <<outQ, alive, pc, sess, chosen, executed, learned, envBest, pend, nlearnAll, rewardOK>>
-       [] Ev.e = "idle" ->
-            /\ Ev.actq = Len(actQ) /\ Ev.outq = Len(outQ) /\ Ev.alive = alive
+       [] ev.e = "idle" ->
+            /\ ev.actq = Len(actQ) /\ ev.outq = Len(outQ) /\ ev.alive = alive
             /\ pc' = [pc EXCEPT !["cal"] = "Sess"]
             /\ UNCHANGED <<actQ, outQ, alive, sess, chosen, executed, learned, envBest, pend, nlearnAll, rewardOK>>
        [] OTHER -> FALSE
 
 (* the k-th agent-driven batch executes what the (deterministic) agent chooses after exactly k-1 learn() calls *)
+
+Step == More /\ l' = l + 1 /\ Rest /\ Apply(Ev)
+
 (* for other agents (epsilon-greedy): the same agent, seed, plan and losses run under another schedule executed T.ref *)
 TTimingIndependent ==
   /\ TScript # <<-1>> => \A k \in 1..Len(executed) : executed[k].act = TScript[((k - 1) % Len(TScript)) + 1]
